@@ -18,10 +18,10 @@ Proof. intros A B [a|e0] f e E; simpl in E; [right; exists a; auto | left; congr
 Lemma special_atom_repaired_ok : forall a, exists a', special_atom repaired a = Ok a'.
 Proof.
   intro a. unfold special_atom, repaired. simpl.
+  destruct (is_matches (a_op a)); [eexists; reflexivity|].
   destruct (special_kind (a_type a) (a_path a)) as [| |v6] eqn:Ek.
   - eexists; reflexivity.
-  - destruct (is_matches (a_op a)); [eexists; reflexivity|].
-    destruct (a_rhs a) as [[]|]; simpl; eexists; reflexivity.
+  - destruct (a_rhs a) as [[]|]; simpl; eexists; reflexivity.
   - destruct (a_rhs a) as [[]|]; simpl; try (eexists; reflexivity).
     destruct (ip_canon v6 s); simpl; eexists; reflexivity.
 Qed.
